@@ -23,8 +23,11 @@
 //! returning more phrases than the file holds, or `Trie::new` ACCEPTING an index that is not a tree laid
 //! out parent-before-child / has a zero syllable inside a child range (the former findings F16 / F17,
 //! repaired by `validate_index`) / has a node whose syllable field is not a syllable code (C13's F47: `entries()`
-//! would panic at `Syllable::try_from(..).unwrap()`) -> `!oracle C12 new …` (no known classes are left on the
-//! trie side except F39, the empty-key entry of a valid file).
+//! would panic at `Syllable::try_from(..).unwrap()`) -> `!oracle C12 new …`.  No known class is left: F39 (dictionary-file form:
+//! a VALID file holding an entry under the empty key made every conversion abort) is repaired at the engine
+//! (find_best_phrase returns None for an empty range); its witness file stays in the corpus, a context
+//! over it must be created, convert and commit like over any other file, and `empty_key_entry` is a statistic
+//! (`ctx_runs_over_empty_key_file`, `ctx_ok_over_empty_key_file`).
 #[path = "../c12_common.rs"]
 mod common;
 use chewing::dictionary::{Dictionary, DictionaryBuilder, DictionaryInfo, LookupStrategy, Phrase, Trie, TrieBuilder};
@@ -254,8 +257,9 @@ fn witnesses() -> Vec<Case> {
         idx.extend(rec8(0, d1.len() as u16, 0));
         v.push(doc_case(format!("clause-root-syllable-field-unchecked-{:#06x}", code), &idx, &d1));
     }
-    // F39 (dictionary-file form): a *valid* file, written by `TrieBuilder`, with an entry under the
-    // empty key; the traversals are fine, every conversion of a context over it aborts
+    // F39 (dictionary-file form; repaired at the engine by 870202b): a *valid* file, written by `TrieBuilder`, with an
+    // entry under the empty key; the traversals are fine and every conversion of a context over it used to abort
+    // (`attempt to subtract with overflow` in shortest_path).  No oracle class any more: a recurrence is `new`.
     v.push(Case {
         what: "witness-F39-empty-key-entry".into(),
         bytes: build(&[(&[], "空", 1, None), (&[CE4], "測", 1, None), (&[SHI4], "試", 3, None)], false),
@@ -768,8 +772,6 @@ fn main() {
     let handles: Vec<_> = (0..shards)
         .map(|s| {
             let (lo, hi) = (s * per, ((s + 1) * per).min(plan.len()));
-            let cs = cs.clone();
-            let plan = plan.clone();
             std::thread::spawn(move || {
                 let mut lines: Vec<String> = vec![];
                 let mut from = lo;
@@ -785,18 +787,9 @@ fn main() {
                                     break;
                                 };
                                 let pi: usize = id.parse().unwrap();
-                                let c = &cs[plan[pi].0];
-                                let parts = catch_unwind(AssertUnwindSafe(|| Trie::new(&c.bytes[..]).ok().and_then(|t| trie_parts(&t)))).ok().flatten();
-                                let recs = parts.as_ref().map(|p| parse_index(&p.0)).unwrap_or_default();
                                 let oom = stderr.contains("memory allocation of");
-                                let sub = stderr.contains("subtract with overflow");
-                                let class = if !timeout && sub && empty_key_entry(&recs) {
-                                    "F39-empty-key-entry"
-                                } else {
-                                    "new"
-                                };
                                 lines.push(format!("#ctx {} {}", pi, if timeout || oom { "hang" } else { "abort" }));
-                                lines.push(format!("!oracle C12 {} context-{} {} stderr={}", class, if timeout { "hangs" } else if oom { "exhausts-memory" } else { "aborts" },
+                                lines.push(format!("!oracle C12 new context-{} {} stderr={}", if timeout { "hangs" } else if oom { "exhausts-memory" } else { "aborts" },
                                     text.chars().take(700).collect::<String>().replace(' ', "_"), stderr_gist(&stderr)));
                                 from = pi + 1;
                             }
@@ -814,7 +807,18 @@ fn main() {
     for h in handles {
         for l in h.join().unwrap() {
             if let Some(rest) = l.strip_prefix("#ctx ") {
-                *st.entry(format!("ctx_{}", rest.split(' ').nth(1).unwrap_or("?"))).or_default() += 1;
+                let res = rest.split(' ').nth(1).unwrap_or("?");
+                *st.entry(format!("ctx_{}", res)).or_default() += 1;
+                // statistic (the former class predicate of F39): contexts over a VALID file with an entry under the empty key
+                if let Some(c) = rest.split(' ').next().and_then(|pi| pi.parse::<usize>().ok()).and_then(|pi| plan.get(pi)).map(|p| &cs[p.0]) {
+                    let parts = catch_unwind(AssertUnwindSafe(|| Trie::new(&c.bytes[..]).ok().and_then(|t| trie_parts(&t)))).ok().flatten();
+                    if parts.as_ref().is_some_and(|p| empty_key_entry(&parse_index(&p.0))) {
+                        *st.entry("ctx_runs_over_empty_key_file".into()).or_default() += 1;
+                        if res == "ok" {
+                            *st.entry("ctx_ok_over_empty_key_file".into()).or_default() += 1;
+                        }
+                    }
+                }
             } else if let Some(rest) = l.strip_prefix("!oracle ") {
                 let mut it = rest.splitn(3, ' ');
                 let (p, c, d) = (it.next().unwrap_or(""), it.next().unwrap_or(""), it.next().unwrap_or(""));
